@@ -75,6 +75,24 @@ class Multiplexer(ComplexDop):
             odxraise("Upper and lower bounds of limits must compareable")
         return lower_limit, upper_limit
 
+    def _get_default_case_key_value(self) -> int:
+        """Return the value of the switch key which is used if the
+        default case is selected without specifying a key value
+
+        This is zero unless that would select one of the regular cases
+        when decoding.
+        """
+        key_value = 0
+        for mux_case in self.cases:
+            lower, upper = cast(Tuple[int, int], self._get_case_limits(mux_case))
+            if lower <= key_value and key_value <= upper:
+                raise EncodeError(
+                    f"The key value for the default case of multiplexer {self.short_name} "
+                    f"cannot be determined automatically because {key_value} selects case "
+                    f"'{mux_case.short_name}'. Specify the key value as an integer instead.")
+
+        return key_value
+
     @override
     def encode_into_pdu(self, physical_value: ParameterValue, encode_state: EncodeState) -> None:
 
@@ -111,7 +129,7 @@ class Multiplexer(ComplexDop):
             if isinstance(mux_case, MultiplexerCase):
                 key_value, _ = self._get_case_limits(mux_case)
             else:
-                key_value = 0
+                key_value = self._get_default_case_key_value()
         elif isinstance(case_spec, int):
             applicable_cases = []
             for x in self.cases:
